@@ -334,66 +334,89 @@ Definition drain (c : cfg) (r : req) (st : sst) : bool * sst :=
   let '(x, st') := sread (r_lim r) (zl_of (r_fr r)) (tl_of (r_fr r)) st (Some (c_max c + 1)) in
   (match x with RcEof => false | _ => true end, st').
 
-(* returns the events of the iteration and Some pos (keep-alive, next head parse at pos,
-   relative to the end of this head) or None (connection finished) *)
-Definition serve_one (c : cfg) (r : req) : list event * option Z :=
-  if c_getonly c && negb (r_getlike r) then ([EResp statusBadRequest true], None)       (* ErrGetOnly *)
+(* raw result of the handler's reads (what the last Read call returned) *)
+Definition raw_read_rc (r : req) (st : sst) : rc :=
+  let zl := zl_of (r_fr r) in let tl := tl_of (r_fr r) in
+  match r_rd r with
+  | RNone => RcOk
+  | RUpTo k => fst (sread (r_lim r) zl tl st (Some k))
+  | REOF => fst (sread (r_lim r) zl tl st None)
+  end.
+
+(* the iteration up to the handler call *)
+Inductive pre :=
+| PStop (evs : list event)                                (* the loop breaks before the handler *)
+| PRun (evs : list event) (pos : Z) (st : option sst).    (* the handler runs: reader position, body stream *)
+
+Definition expect_verdict (c : cfg) (r : req) : option Z :=   (* Some status: the expectation is rejected with it *)
+  if r_expect r then
+    if c_expectH c then (if r_expect_status r =? statusContinue then None else Some (r_expect_status r))
+    else if c_continueH c then (if r_continue_ok r then None else Some statusExpectationFailed)
+    else None
+  else None.
+
+Definition before_handler (c : cfg) (r : req) : pre :=
+  if c_getonly c && negb (r_getlike r) then PStop [EResp statusBadRequest true]       (* ErrGetOnly *)
   else
   (* first body-reading attempt: skipped when MayContinue() *)
   let first := if r_expect r then BReady 0 None else read_body c r false in
   match first with
-  | BFailSilent => ([], None)
-  | BFail => ([EResp statusBadRequest true], None)
+  | BFailSilent => PStop []
+  | BFail => PStop [EResp statusBadRequest true]
   | BReady pos0 st0 =>
     (* 'Expect: 100-continue' request handling *)
-    let rejected :=
-      if r_expect r then
-        if c_expectH c then (if r_expect_status r =? statusContinue then None else Some (r_expect_status r))
-        else if c_continueH c then (if r_continue_ok r then None else Some statusExpectationFailed)
-        else None
-      else None in
-    match rejected with
+    match expect_verdict c r with
     | Some status =>
         (* continueReadingRequest = false; connectionClose = true; handler not called *)
-        ([EResp status true], None)
+        PStop [EResp status true]
     | None =>
       let second := if r_expect r then read_body c r true else BReady pos0 st0 in
       let pre := if r_expect r then [E100] else [] in
       match second with
-      | BFailSilent => (pre, None)
-      | BFail => (pre ++ [EResp statusBadRequest true], None)
-      | BReady pos1 st1 =>
-        let close0 := c_nokeepalive c || r_close r in
-        (* s.Handler(ctx) *)
-        let '(nread, hrc, st2) :=
-          match st1 with
-          | Some st => let '(n, x, st') := run_reads r st in (n, x, Some st')
-          | None => (0, RcOk, None)
-          end in
-        let pos2 := match st2 with Some st => s_pos st | None => pos1 end in
-        (* which stream is still attached to the ctx the loop goes on with *)
-        let attached :=
-          match r_fin r with
-          | FinDetach => None            (* closeBodyStream: req.bodyStream = nil *)
-          | FinTimeout => None           (* ctx = s.acquireCtx(c): a fresh Request *)
-          | _ => st2
-          end in
-        let status := match r_fin r with FinTimeout => statusRequestTimeout | _ => statusOK end in
-        let hijack := match r_fin r with FinHijack => true | _ => false end in
-        (* the drain *)
-        let '(close1, pos3) :=
-          match attached with
-          | Some st => if hijack then (close0, pos2)
-                       else let '(cl, st') := drain c r st in (close0 || cl, s_pos st')
-          | None => (close0, pos2)
-          end in
-        let close2 := close1 || match r_fin r with FinConnClose => true | _ => false end in
-        let evs := pre ++ [EDispatch (r_id r) nread hrc; EResp status close2] in
-        if close2 then (evs, None)
-        else if hijack then (evs ++ [EHijack], None)
-        else (evs, Some pos3)
+      | BFailSilent => PStop pre
+      | BFail => PStop (pre ++ [EResp statusBadRequest true])
+      | BReady pos1 st1 => PRun pre pos1 st1
       end
     end
+  end.
+
+(* the handler call and the rest of the iteration; returns the events and Some pos (keep-alive,
+   next head parse at pos, relative to the end of this head) or None (connection finished) *)
+Definition after_handler (c : cfg) (r : req) (pos1 : Z) (st1 : option sst) : list event * option Z :=
+  let close0 := c_nokeepalive c || r_close r in
+  (* s.Handler(ctx) *)
+  let '(nread, hrc, st2) :=
+    match st1 with
+    | Some st => let '(n, x, st') := run_reads r st in (n, x, Some st')
+    | None => (0, RcOk, None)
+    end in
+  let pos2 := match st2 with Some st => s_pos st | None => pos1 end in
+  (* which stream is still attached to the ctx the loop goes on with *)
+  let attached :=
+    match r_fin r with
+    | FinDetach => None            (* closeBodyStream: req.bodyStream = nil *)
+    | FinTimeout => None           (* ctx = s.acquireCtx(c): a fresh Request *)
+    | _ => st2
+    end in
+  let status := match r_fin r with FinTimeout => statusRequestTimeout | _ => statusOK end in
+  let hijack := match r_fin r with FinHijack => true | _ => false end in
+  (* the drain *)
+  let '(close1, pos3) :=
+    match attached with
+    | Some st => if hijack then (close0, pos2)
+                 else let '(cl, st') := drain c r st in (close0 || cl, s_pos st')
+    | None => (close0, pos2)
+    end in
+  let close2 := close1 || match r_fin r with FinConnClose => true | _ => false end in
+  let evs := [EDispatch (r_id r) nread hrc; EResp status close2] in
+  if close2 then (evs, None)
+  else if hijack then (evs ++ [EHijack], None)
+  else (evs, Some pos3).
+
+Definition serve_one (c : cfg) (r : req) : list event * option Z :=
+  match before_handler c r with
+  | PStop evs => (evs, None)
+  | PRun evs pos st => let '(evs2, nxt) := after_handler c r pos st in (evs ++ evs2, nxt)
   end.
 
 (* ------------------------------------------------------------------------------------ *)
